@@ -78,7 +78,16 @@ fn apoll_sized<const N: usize>(c: &mut Cur, out: &mut Vec<i128>) {
             31 => {
                 let d = c.take_list();
                 guarded(out, |o| {
-                    let p = Pin::new(&mut buf).poll_write(&mut cx, &d);
+                    // constructor code 4 = new(), with writes going through the trait's PROVIDED vectored entry point (single slice:
+                    // with the default implementation this is poll_write; an override of poll_write_vectored shows here)
+                    let p = if ctor == 4 {
+                        Pin::new(&mut buf).poll_write_vectored(&mut cx, &[std::io::IoSlice::new(&d)])
+                    } else if ctor == 5 {
+                        // two slices with the same bytes: the default implementation writes the first non-empty one, i.e. poll_write(d)
+                        Pin::new(&mut buf).poll_write_vectored(&mut cx, &[std::io::IoSlice::new(&d), std::io::IoSlice::new(&d)])
+                    } else {
+                        Pin::new(&mut buf).poll_write(&mut cx, &d)
+                    };
                     enc_poll_usize(o, &p);
                 })
             }
